@@ -155,7 +155,17 @@ def check(run):
     # generated keys and key files
     for i in range(5 if quick else 40):
         name = os.path.join(wd, f"gen{i}")
-        priv, pub = mc.gen_and_write_keys(name)
+        if i % 2:       # the name was used before, for key files in another (longer) format
+            with open(name + ".pri", "wb") as f:
+                f.write(os.urandom(32).hex().encode() + b"\n")
+            with open(name + ".pub", "wb") as f:
+                f.write(b"-----BEGIN PUBLIC KEY-----\n" + os.urandom(48))
+        try:
+            priv, pub = mc.gen_and_write_keys(name)
+            c.keyfiles_to_keys(name)
+        except Exception as e:  # noqa: BLE001
+            viol(f"key files written by gen_and_write_keys over existing files do not load back ({type(e).__name__})")
+            continue
         p2, u2 = c.keyfiles_to_keys(name)
         seed = c.PrivateKey.to_bytes(priv)
         run.evaluations += 2
